@@ -1,6 +1,7 @@
 import MW.Staking.Facts
 import MW.Inv.ReqHistory
 import MW.Inv.Demo
+import MW.Chain.Dispatch
 /-!
 # C05 — Pro-rata, at-most-once withdrawal of unbonded tokens
 
@@ -252,6 +253,46 @@ theorem no_request_no_payout (s : CState) (hr : CReach s) (evs : List CEv) (k : 
     (hb : s.batches.find? k = some b) (hst : b.status = .received) (hreq : findReq s.reqs k u = none) :
     findReq (List.foldl cstep s evs).reqs k u = none ∧ payoutsOf k u s evs = [] :=
   gone_history (cinv_reach hr) evs hb hst hreq
+
+/-- **receives — on the chain model.**  A committed `Withdraw {k}` transaction sent (without funds)
+by an account `u` other than the contract moves exactly `floor(received × own / total)` of the staked
+asset from the contract's bank balance to `u`'s, leaves every other account's balance of that asset
+as it was, and deletes `u`'s request; whatever oracle is configured and whatever the fault
+assignment. -/
+theorem withdraw_tx_pays (w : MW.Chain.World) (u : String) (k : Nat) (f : MW.Chain.Faults) (txi : Option Nat)
+    (hu : u ≠ w.self) (hc : (MW.Chain.step w (.exec u [] (.withdraw k) f txi)).committed = true) :
+    ∃ batch recv req, w.c.batches.find? k = some batch ∧ batch.status = .received ∧ batch.received = some recv
+      ∧ findReq w.c.reqs batch.id u = some req
+      ∧ (let w' := (MW.Chain.step w (.exec u [] (.withdraw k) f txi)).w
+         let D := w.c.config.proto.ibcDenom
+         let amt := recv * req.amount / batch.total
+         w'.bal u D = w.bal u D + amt ∧ amt ≤ w.bal w.self D ∧ w'.bal w.self D = w.bal w.self D - amt
+         ∧ (∀ a, a ≠ u → a ≠ w.self → w'.bal a D = w.bal a D)
+         ∧ findReq w'.c.reqs batch.id u = none) := by
+  simp only [MW.Chain.step, MW.Chain.runExec] at hc ⊢
+  cases hcore : MW.Chain.runExecCore w u [] (.withdraw k) f txi with
+  | mk o calls =>
+    cases o with
+    | none => simp [hcore] at hc
+    | some w' =>
+      simp only [hcore]
+      obtain ⟨bal1, c', msgs, d, hbal, hx, hd, hw'⟩ := MW.Chain.runExecCore_some hcore
+      simp only [List.isEmpty_nil, ↓reduceIte, Option.some.injEq] at hbal
+      subst hbal hw'
+      obtain ⟨batch, recv, req, orc, _, hb, hst, hrecv, hreq, _, horc, hs', hout⟩ := withdraw_eff (by simpa [execute] using hx)
+      refine ⟨batch, recv, req, hb, hst, hrecv, hreq, ?_⟩
+      subst hout
+      obtain ⟨d1, h1, h2⟩ := MW.Chain.dispatchAll_append_ok hd
+      obtain ⟨d0', h3, h4⟩ := MW.Chain.dispatchAll_cons_ok h1
+      have := MW.Chain.dispatchAll_nil_ok h4; subst this
+      have := MW.Chain.dispatchAll_oracle horc h2; subst this
+      obtain ⟨_, b, hbm, hd'⟩ := MW.Chain.dispatch_msgSend_ok h3
+      subst hd'
+      obtain ⟨g1, g2, g3, g4⟩ := MW.Chain.bankMove_ok (fun e => hu e.symm) hbm w.c.config.proto.ibcDenom
+      simp only [MW.Chain.coinSum, ↓reduceIte, Nat.add_zero] at g1 g2 g3 g4
+      refine ⟨g1, g2, g3, fun a ha hs => g4 a hs ha, ?_⟩
+      subst hs'
+      exact findReq_removeReq _ _ _
 
 section Demo
 open MW.Chain.Demo
